@@ -47,7 +47,9 @@ def check(run: Run) -> None:
     from ..report import run_stage
 
     run.rule("C20.R9", "python values handed to the result terminals reach the AST with Python's own literal escaping (C13.R1 re-evaluated): two different strings must not become the same Constant")
-    run_stage(run, "c13", only={"C13.R3", "C13.R1"})
+    run_stage(run, "c13", only={"C13.R3", "C13.R1", "C13.R2"})
+    run.rule("C20.R10", "the way a lambda is supplied does not change the AST: a python callable is captured by value with every binder respected (C04.R1, C04.R3 re-evaluated) and values become constants without conversion (C13.R2: True stays True, not 1) - so callable, text and AST forms of one lambda hash alike")
+    run_stage(run, "c04", only={"C04.R1", "C04.R3"})
     check_snapshot(Relabel(run, "C20.R7"), TermCtx(m, max_depth=2, opaque={"as_literal", "_parse_source_for_lambda"}), m, m.find_class("_rewrite_captured_vars", in_module="func_adl.util_ast"))
 
 
@@ -194,6 +196,13 @@ def _check_function(run: Run, ctx: TermCtx, fi: FuncInfo, seen) -> None:
             run.fail("C20.R1", fi, n if isinstance(n, ast.stmt) else stmt_of(n), "conditional control flow in hash computation: the digest is not a function of the dump alone")
     if fi.name != "calc_ast_hash":
         return
+    if _COUNTS.get("dump", 0) == 0 and param is not None:
+        # no ast.dump at all: if the argument is rendered by something else on its way to the digest, that is the finding
+        other = [c for c in calls_in(fi) if fa.cfg.has_node(c) and any(fa.cfg.has_node(x) and strip_sites(fa.term_of(x)) == ("param", param) for x in list(c.args) + [k.value for k in c.keywords])]
+        if other and _COUNTS.get("digest", 0) >= 1:
+            c0 = other[0]
+            run.fail("C20.R1", fi, stmt_of(c0), f"the digest input is {ast.unparse(c0)[:60]}, not ast.dump(a): only ast.dump prints exactly the structure (node classes, field names, constants with their types); source text or repr() identify different structures (Constant(-1) and UnaryOp(USub, Constant(1)) both unparse to -1) or depend on the process", "ast.dump(a)")
+            return
     run.floor("C20.R1", _COUNTS.get("dump", 0), 1, "ast.dump call")
     run.floor("C20.R1", _COUNTS.get("digest", 0), 1, "hashlib digest construction")
 
